@@ -20,12 +20,24 @@ EXT_CLASSES = {
     'collections.defaultdict': 'defaultdict', 'jsonschema.ValidationError': 'JsonSchemaValidationError',
     'pydantic.ValidationError': 'PydanticValidationError', 'uuid.UUID': 'UUID',
     'werkzeug.exceptions.HTTPException': 'HTTPException',
+    'werkzeug.exceptions.UnsupportedMediaType': 'HTTPUnsupportedMediaType',
+    'werkzeug.exceptions.BadRequest': 'HTTPBadRequest',
+    'aiohttp.web.HTTPUnsupportedMediaType': 'HTTPUnsupportedMediaType',
+    'aiohttp.web.HTTPBadRequest': 'HTTPBadRequest',
+    'aiohttp.web.HTTPException': 'HTTPException',
+}
+
+# process-global objects of external frameworks, modelled as opaque objects of an abstract class
+EXT_GLOBAL_OBJECTS = {
+    'flask.request': 'ExtHttpRequest',
 }
 
 BUILTIN_DECLARED = {
     'UserCallable': {'__name__'},
     'BaseException': {'args'},
     'iterator': {'$src', '$pos'},
+    'ExtHttpRequest': {'content_type', 'mimetype', 'is_json'},
+    'ExtHttpResponse': {'status', 'body', 'content_type'},
 }
 
 
@@ -106,6 +118,17 @@ class ExprMixin:
         dotted = f'{modname}.{attr}'
         if dotted in EXT_CLASSES:
             return smt.mk_ref(builtin_class(EXT_CLASSES[dotted]).cid)
+        if dotted in EXT_GLOBAL_OBJECTS:
+            K = builtin_class(EXT_GLOBAL_OBJECTS[dotted])
+            v = self.static_val(('global', modname, attr), key=f'global:{modname}:{attr}')
+            self.use_class(K)
+            self._add_axiom(smt.cls_of(smt.static_id(v)) == K.cid)
+            self.known_cls[smt.simp(v).get_id()] = K
+            self.old_terms.add(smt.simp(v).get_id())
+            aci = getattr(self, 'assume_class_invariant', None)
+            if aci is not None:
+                aci(v, K.name)
+            return v
         if dotted in EXT_MODULES or modname in EXT_MODULES and attr in ('exceptions', 'web', 'json', 'mock', 'decoder'):
             return self.static_val(ExtModule(dotted), key=f'ext:{dotted}')
         return self.static_val(Builtin(dotted), key=f'builtin:{dotted}')
@@ -113,7 +136,11 @@ class ExprMixin:
     def module_const(self, m: ModuleInfo, name: str, expr: ast.expr):
         ck = ('const', m.name, name)
         if ck in self.global_cache:
-            return self.global_cache[ck]
+            hit = self.global_cache[ck]
+            if self.alloc_is_live(hit):
+                return hit
+            # allocated while another state was installed (old(), a rolled-back sub-path): its cells are not in
+            # this heap.  Module-level literals are immutable constants (assumed), so evaluate again.
         v = None
         if isinstance(expr, ast.Call):
             tgt = self.index.resolve_expr_static(m, expr.func)
@@ -129,6 +156,19 @@ class ExprMixin:
             v = self.ev(expr, fr)
         self.global_cache[ck] = v
         return v
+
+    def alloc_is_live(self, v) -> bool:
+        r = smt.simp(Val.r(v)) if smt.simp(v).decl().name() == 'ref' else None
+        if r is None or not z3.is_int_value(r) or r.as_long() < smt.FRESH_BASE:
+            return True
+        for arr in (self.st.seq, self.st.dct):
+            a = arr
+            while z3.is_app(a) and a.decl().kind() == z3.Z3_OP_STORE:
+                if smt.simp(a.arg(1)).eq(r):
+                    return True
+                a = a.arg(0)
+        c = self.class_of(v)
+        return not (c is not None and c.builtin and c.name in ('list', 'tuple', 'dict', 'set', 'frozenset'))
 
     # ==================================================================================== dispatcher
     def ev(self, e: ast.expr, fr: Frame):
